@@ -15,6 +15,16 @@ CHECKS = {
    note="Trusted: the go/ast overlay instrumentation (rules R1-R5) preserves behaviour; testing/synctest fake clock; the harness's counting resources stand in for arbitrary leaf resources. Close durations <= 5 s, Stop delays <= 6 s.",
    technique="deterministic simulation: seeded goroutine scheduler + fake clock over overlay-instrumented real code, deadlock verdict, ddmin-shrunk replay files",
    ref="6 (C17)"),
+ "C04": dict(
+   text="Seeded generation of call graphs (1-4 procedures, value and ref parameters, initialised and uninitialised locals, recursion and mutual recursion bounded by a fuel argument, calls in tail position through TailCall) executed by the real ArchetypeInterface.Call/TailCall/Return/Goto inside MPCalContext.Run, with attempts that fail after doing all their work (abort between call and return); after every attempt pc, every saved stack frame and every variable of every procedure and of the caller are compared with a 150-line reference interpreter of PlusCal call semantics.",
+   note="Trusted: jump/proc tables hand-built in the code generator's conventions (the Scala compiler cannot run offline); values are integers and handle strings; depth <= 4.",
+   technique="deterministic simulation (single task): seeded program and abort-pattern generation, lock-step reference model of PlusCal call semantics, shrunk replay files",
+   ref="6 (C04)"),
+ "C10": dict(
+   text="The real round-robin fairness counter is driven through MPCalContext.Run by labels whose attempts consult generated choice points (depth 1-4, bounds 1-6) and fail until a target combination or for a full product-of-bounds window; between phases ids/bounds/depth change (prefix-stable or not) under retry or after commits to the same or another label; random start digits are stream decisions. Oracles: every value below its bound, no panic, every maximal run of attempts consulting the same choice points has no repeated combination and covers all combinations in a full window, the target is reached within product-of-bounds attempts.",
+   note="Trusted: the harness body calls NextFairnessCounter the way generated either/with code does; single task.",
+   technique="deterministic simulation (single task): seeded retry/structure-change schedules against a combinatorial oracle, shrunk replay files",
+   ref="6 (C10)"),
 }
 PENDING = "check not built yet in this session (planned, see DESIGN.md section 6); not claimed until its harness passes the determinism self-test"
 
